@@ -5,7 +5,8 @@ import datetime
 from . import recorders
 
 UTC = datetime.timezone.utc
-TIMES = [datetime.datetime(2023, 3, 3, 3, 0, s, tzinfo=UTC) for s in (0, 10, 20, 30, 40, 5)]
+# the last entry is the documented time(None): "go back to reading the system clock"
+TIMES = [datetime.datetime(2023, 3, 3, 3, 0, s, tzinfo=UTC) for s in (0, 10, 20, 30, 40, 5)] + [None]
 OUTCOMES = ["addSuccess", "addFailure", "addError", "addSkip", "addExpectedFailure",
             "addUnexpectedSuccess"]
 LEAVES = ["py26", "py27", "ext", "twisted", "real"]
@@ -56,8 +57,20 @@ def build_stack(stack, built=None, path=()):
     elif kind == "Decorator":
         obj = testtools.TestResultDecorator(build_stack(stack[1], built, path + (("Decorator",),))[0])
     elif kind == "Tagger":
-        obj = testtools.Tagger(build_stack(stack[3], built, path + (("Tagger", stack[1], stack[2]),))[0],
-                               set(stack[1]), set(stack[2]))
+        # how the caller hands the tag collections over: a set it keeps, one-shot iterables, or a
+        # scratch set it empties and refills straight after building the Tagger
+        mode = stack[4] if len(stack) > 4 else "set"
+        new, gone = set(stack[1]), set(stack[2])
+        inner = build_stack(stack[3], built, path + (("Tagger", stack[1], stack[2]),))[0]
+        if mode == "iter":
+            obj = testtools.Tagger(inner, iter(sorted(new)), (t for t in sorted(gone)))
+        else:
+            obj = testtools.Tagger(inner, new, gone)
+        if mode == "mutated":
+            new.clear()
+            gone.clear()
+            new.add("caller-reused-set")
+            gone.update(stack[1])
     elif kind == "TBT":
         calls = []
         obj = testtools.TestByTestResult(lambda **kw: calls.append(
@@ -294,4 +307,5 @@ def random_stack(rng, depth, top=True):
         inner = ["E2O", inner] if inner[0] != "TBT" else ["Multi", [inner]]
     if r < 0.8:
         return ["Decorator", inner]
-    return ["Tagger", rng.sample(TAGS, rng.randint(0, 2)), rng.sample(TAGS, rng.randint(0, 1)), inner]
+    return ["Tagger", rng.sample(TAGS, rng.randint(0, 2)), rng.sample(TAGS, rng.randint(0, 1)), inner,
+            rng.choice(["set", "set", "iter", "mutated"])]
